@@ -435,7 +435,11 @@ func txnOf(shape string) *etcdserverpb.TxnRequest {
 	case "compact":
 		return &etcdserverpb.TxnRequest{Compare: []*etcdserverpb.Compare{{Target: etcdserverpb.Compare_VERSION,
 			Result: etcdserverpb.Compare_EQUAL, Key: []byte("compact_rev_key"), TargetUnion: &etcdserverpb.Compare_Version{Version: 1}}},
-			Success: []*etcdserverpb.RequestOp{opPut()}, Failure: []*etcdserverpb.RequestOp{opRange()}}
+			// the probe kube-apiserver sends: put and read are on the compared key
+			Success: []*etcdserverpb.RequestOp{{Request: &etcdserverpb.RequestOp_RequestPut{RequestPut: &etcdserverpb.PutRequest{
+				Key: []byte("compact_rev_key"), Value: []byte("7")}}}},
+			Failure: []*etcdserverpb.RequestOp{{Request: &etcdserverpb.RequestOp_RequestRange{RequestRange: &etcdserverpb.RangeRequest{
+				Key: []byte("compact_rev_key")}}}}}
 	}
 	return &etcdserverpb.TxnRequest{} // invalid: no recognised shape
 }
